@@ -183,6 +183,69 @@ fn c09_job(payload: &[u8], io: &mut WorkerIo) -> Vec<u8> {
     out.0
 }
 
+/// the store / overwrite / read-back / decode cycle of C09's part (b) for every value length and key
+/// length within a few bytes of a slot class edge (all 16 classes and the first sizes of the large class),
+/// reported under `prop`: records that fill a slot to the byte, or miss it by one or two
+pub fn edge_sweep(ctx: &mut Ctx, prop: &str) {
+    let seed = ctx.seed;
+    let mut edges: Vec<u64> = decoder::CLASSES.iter().map(|c| *c as u64).collect();
+    edges.extend([1152u64, 1280, 2048]);
+    let mut val_lens: Vec<u64> = Vec::new();
+    let mut key_lens: Vec<u64> = Vec::new();
+    for c in edges {
+        val_lens.extend(c.saturating_sub(8)..=c + 2);
+        key_lens.extend(c.saturating_sub(12)..=c + 2);
+    }
+    val_lens.sort();
+    val_lens.dedup();
+    key_lens.sort();
+    key_lens.dedup();
+    let mut jobs: Vec<Vec<u8>> = Vec::new();
+    for (is_key, lens) in [(false, &val_lens), (true, &key_lens)] {
+        for c in lens.chunks(12) {
+            let mut b = Buf::new();
+            b.u8(JOB_F_C09).u8(is_key as u8).u64(seed).u32(c.len() as u32);
+            for l in c {
+                b.u64(*l);
+            }
+            jobs.push(b.0);
+        }
+    }
+    ctx.pool.reinit(vec![]);
+    let results = ctx.pool.map(&jobs, |i| i);
+    let mut done = 0u64;
+    for (i, res) in results.into_iter().enumerate() {
+        match res {
+            JobResult::Done(b) => {
+                let mut r = Rd::new(&b);
+                if r.u8() == 0 {
+                    let _ = r.u64();
+                    done += r.u64();
+                } else {
+                    let key = r.string();
+                    let msg = r.string();
+                    let _ = r.u64();
+                    let case = r.vec();
+                    ctx.run.violation(Violation { prop: prop.to_string(), key: format!("edge-sweep:{key}"), message: msg.clone(), replay: Replay { engine: "C09b".into(), config: vec![], case, story: vec!["fresh map: put sentinel-1, put X, put sentinel-2, overwrite X one byte longer / shorter; get all three after every step; close; decode; re-open".into(), msg] } });
+                }
+            }
+            JobResult::Crashed { progress, how } => {
+                let l = progress.unwrap_or(0);
+                let is_key = jobs[i][1] == 1;
+                let mut case = Buf::new();
+                case.u8(is_key as u8).u64(seed).u32(1).u64(l);
+                let msg = format!("{} length {l}: the store/read-back cycle does not return normally: {how}", if is_key { "key" } else { "value" });
+                ctx.run.violation(Violation { prop: prop.to_string(), key: format!("edge-sweep:{}", if how.contains("hang") { "hang" } else { "abort" }), message: msg.clone(), replay: Replay { engine: "C09b".into(), config: vec![], case: case.0, story: vec![msg] } });
+            }
+        }
+    }
+    eprintln!("[{prop}] edge sweep: {} value lengths and {} key lengths around the slot class edges, {done} cycles", val_lens.len(), key_lens.len());
+    ctx.run.add("edge_sweep_lengths", done as i64);
+    ctx.states += done;
+    ctx.transitions += done * 8;
+    ctx.runs.push(J::obj(vec![("label", J::s("edge sweep: store / overwrite one byte longer and shorter / read back / decode for every value and key length within a few bytes of a slot class edge")), ("value_lengths", J::Int(val_lens.len() as i64)), ("key_lengths", J::Int(key_lens.len() as i64))]));
+}
+
 fn class_of(l: u64) -> String {
     if l <= 4200 {
         "small".into()
@@ -304,8 +367,13 @@ pub fn c09(tier: &str, seed: u64) -> i32 {
         let specs = vec![
             crate::props_c08::SeedSpec { file: "key", boundary: 16 * 1024, eps: 16, free_slots: 2, val_pad: 0 },
             crate::props_c08::SeedSpec { file: "val", boundary: 16 * 1024, eps: 16, free_slots: 0, val_pad: 0 },
+            crate::props_c08::SeedSpec { file: "val", boundary: 16 * 1024, eps: 16, free_slots: 2, val_pad: 0 },
         ];
         crate::props_c08::seeded_group(&mut ctx, "C09", crate::engine_a::O_API | crate::engine_a::O_DEC | crate::engine_a::O_DEC_CONTENTS, clauses, 2, vec![3, 200], &specs, 30_000, 6.0);
+        if ctx.run.violations.is_empty() {
+            // chains of three such keys (capped): a record that moves into a freed slot below its old place
+            crate::props_a::three_key_seeds(&mut ctx, "C09", crate::engine_a::O_API | crate::engine_a::O_DEC | crate::engine_a::O_DEC_CONTENTS, clauses, 3.0);
+        }
         ctx.run.add("seeded_closure_states", ctx.states as i64);
         ctx.run.add("seeded_closure_transitions", ctx.transitions as i64);
         ctx.pool.reinit(vec![]);
@@ -318,7 +386,10 @@ pub fn c09(tier: &str, seed: u64) -> i32 {
     ctx.run.sample(J::s("value length 16777216: slot chosen by the crate vs exact record length 1+4+16777216"));
     ctx.run.sample(J::s("key length 65536 x value offset 2^21-8 x next offset 8*2^14"));
     ctx.run.sample(J::s("end-to-end: value lengths 1022,1023,1024 between two sentinels, overwritten +-1"));
-    ctx.run.exhaustive = probe_ok;
+    ctx.run.exhaustive = probe_ok && ctx.all_closed;
+    if !ctx.all_closed {
+        ctx.run.notes.push("parts (a) and (b) are complete enumerations; the three-key seeded closures of part (c) hit their cap (completed depth in the runs above)".into());
+    }
     ctx.run.assumptions.push("the hook calls the same encoded_piece_size()/roundup() the write path calls (it only adds code; (b) binds it to what the write path really emits)".into());
     let run = ctx.run;
     drop(ctx.pool);
